@@ -8,7 +8,7 @@ Specification: `PdfVerif.Spec.PageTree`.
 
 Only property theorems live here (helper lemmas: `Lemmas/PageTree.lean`).
 -/
-import PdfVerif.Lemmas.PageTree
+import PdfVerif.Lemmas.PageGraph
 
 namespace PdfVerif.Props.C04
 open PdfVerif PdfVerif.PageTree PdfVerif.Gen.PageTree PdfVerif.Gen.Utils
@@ -24,7 +24,7 @@ theorem C04_order (g : Store) (t : PTree) (catalog : Dict) (fuel : Nat)
     (hcat : ∀ k ∈ INHERITABLE_ATTRS, dget catalog k = none)
     (hnd : t.ids.Nodup) (hf : t.ids.length ≤ fuel) :
     (treeWalk g fuel catalog).err = none ∧
-    (treeWalk g fuel catalog).pages.map (·.id) = (specLeaves t []).map (·.1) := by
+    (treeWalk g fuel catalog).pages.map (·.id) = (specLeaves t []).map (fun sp => some sp.1) := by
   have h := treeWalk_tree g t catalog fuel hE hroot hcat hnd hf
   refine ⟨h.err, ?_⟩
   have := congrArg (List.map Prod.fst) h.pages
@@ -38,7 +38,7 @@ theorem C04_inherit (g : Store) (t : PTree) (catalog : Dict) (fuel : Nat)
     (hcat : ∀ k ∈ INHERITABLE_ATTRS, dget catalog k = none)
     (hnd : t.ids.Nodup) (hf : t.ids.length ≤ fuel) :
     (treeWalk g fuel catalog).pages.map (fun rp => (rp.id, INHERITABLE_ATTRS.map (dget rp.attrs))) =
-      (specLeaves t []).map (fun sp => (sp.1, INHERITABLE_ATTRS.map (inherited sp.2))) :=
+      (specLeaves t []).map (fun sp => (some sp.1, INHERITABLE_ATTRS.map (inherited sp.2))) :=
   (treeWalk_tree g t catalog fuel hE hroot hcat hnd hf).pages
 
 /-- **Pages.** Hence the `PDFPage` objects (Rotate reduced, boxes parsed/normalised/defaulted,
@@ -82,7 +82,7 @@ theorem C04_driver_domain (g : Store) (ids : List Nat) (catalog : Dict) (fuel : 
 /-- With attributes in the catalog the walk inherits from it as from a page-tree node; the
 hypothesis `hcat` above is needed. -/
 theorem C04_catalog_attr_cex :
-    let g : Store := fun n => if n = 2 then some (.node [("Type", .atom (.name "Page"))]) else none
+    let g : Store := [(2, .node [("Type", .atom (.name "Page"))])]
     let catalog : Dict := [("Pages", .atom (.ref 2)), ("Rotate", .atom (.int 90))]
     (createPages g [2] 2 catalog).1.map (·.rotate) = [90] ∧
     (specPages g (.page 2 [("Type", .atom (.name "Page"))])).1.map (·.rotate) = [0] := by
@@ -90,59 +90,149 @@ theorem C04_catalog_attr_cex :
 
 /-- Non-vacuity: a three-level tree (grandparent defines Rotate and MediaBox, parent Resources,
 one page overrides Rotate) is contained in its graph, and both sides give these pages. -/
-def exStore : Store := fun n =>
-  if n = 2 then some (.node [("Type", .atom (.name "Pages")), ("Kids", .arr [.ref 5, .ref 3]),
-      ("Rotate", .atom (.int (-90))), ("MediaBox", .arr [.int 0, .int 0, .ref 9, .int 100])])
-  else if n = 3 then some (.node [("Type", .atom (.name "Pages")), ("Kids", .atom (.ref 8)),
-      ("Resources", .dict [("Marker", .int 7)])])
-  else if n = 8 then some (.val (.arr [.ref 4]))
-  else if n = 9 then some (.val (.atom (.int 200)))
-  else if n = 4 then some (.node [("Type", .atom (.name "Page"))])
-  else if n = 5 then some (.node [("type", .atom (.name "Page")), ("Rotate", .atom (.int 450))])
-  else none
+def exStore : Store :=
+  [(2, .node [("Type", .atom (.name "Pages")), ("Kids", .arr [.atom (.ref 5), .atom (.ref 3)]),
+      ("Rotate", .atom (.int (-90))),
+      ("MediaBox", .arr [.atom (.int 0), .atom (.int 0), .atom (.ref 9), .atom (.int 100)])]),
+   (3, .node [("Type", .atom (.name "Pages")), ("Kids", .atom (.ref 8)),
+      ("Resources", .dict [("Marker", .int 7)])]),
+   (8, .val (.arr [.atom (.ref 4)])),
+   (9, .val (.atom (.int 200))),
+   (4, .node [("Type", .atom (.name "Page"))]),
+   (5, .node [("type", .atom (.name "Page")), ("Rotate", .atom (.int 450))])]
 
 def exCatalog : Dict := [("Type", .atom (.name "Catalog")), ("Pages", .atom (.ref 2))]
 
 example : ∃ t, docTree exStore 7 exCatalog = some t ∧ t.ids = [2, 5, 3, 4] ∧
     createPages exStore [2, 3, 4, 5, 8, 9] 7 exCatalog =
-      ([⟨5, 90, (0, 0, 200, 100), (0, 0, 200, 100), none⟩,
-        ⟨4, 270, (0, 0, 200, 100), (0, 0, 200, 100), some 7⟩], none) := by
+      ([⟨some 5, 90, (0, 0, 200, 100), (0, 0, 200, 100), none⟩,
+        ⟨some 4, 270, (0, 0, 200, 100), (0, 0, 200, 100), some 7⟩], none) := by
   refine ⟨_, rfl, ?_, ?_⟩ <;> decide
 
-/-! ## Cycles and repeated kids: termination, each node once -/
+/-! ## Arbitrary graphs: termination, each node once, completeness, visiting order -/
 
-/-- **Termination.** On every finite object graph (any Kids: cycles, self loops, repeated or shared
-nodes, dangling references) the walk with the visited set never exhausts the recursion budget
-`|nodes| + 1`, never visits a node twice, and yields every page at most once. -/
-theorem C04_terminates (g : Store) (nodes : List Nat) (hfin : ∀ n, g n ≠ none → n ∈ nodes)
-    (catalog : Dict) :
-    (treeWalk g (nodes.length + 1) catalog).err ≠ some .fuel ∧
-    (treeWalk g (nodes.length + 1) catalog).visited.Nodup ∧
-    ((treeWalk g (nodes.length + 1) catalog).pages.map (·.id)).Nodup := by
+/-- **Termination.** On every object graph (any Kids: cycles, self loops, repeated or shared nodes,
+dangling references, direct dictionaries) the walk with the visited set never exhausts the
+recursion budget "number of objects + 1", never visits a node twice, and yields no object twice. -/
+theorem C04_terminates (g : Store) (catalog : Dict) :
+    (treeWalk g (g.length + 1) catalog).err ≠ some .fuel ∧
+    (treeWalk g (g.length + 1) catalog).visited.Nodup ∧
+    ((treeWalk g (g.length + 1) catalog).pages.filterMap (·.id)).Nodup := by
+  have key : ∀ kid, (visit g (g.length + 1) kid catalog []).err ≠ some .fuel ∧
+      (visit g (g.length + 1) kid catalog []).visited.Nodup ∧
+      ((visit g (g.length + 1) kid catalog []).pages.filterMap (·.id)).Nodup := by
+    intro kid
+    obtain ⟨⟨new, h1, h2, h3, _⟩, _⟩ := visit_inv g (g.length + 1) kid catalog []
+    have hn : new.Nodup := by simpa using h2 List.nodup_nil
+    refine ⟨visit_fuel g _ kid catalog [] ?_, ?_, ?_⟩
+    · have := List.length_filter_le (fun n => !([] : List Nat).contains n) (g.map Prod.fst)
+      simp only [List.length_map] at this
+      unfold unvisited; omega
+    · rw [h1]; exact h2 List.nodup_nil
+    · rw [h3]
+      exact (List.filter_sublist).nodup ((List.reverse_perm new).nodup_iff.mpr hn)
   unfold treeWalk
   split
   · exact ⟨by simp, List.nodup_nil, by simp⟩
-  · rename_i a _
-    obtain ⟨new, h1, h2, h3⟩ := visit_inv g (nodes.length + 1) a catalog []
-    refine ⟨visit_fuel g nodes hfin _ a catalog [] ?_, ?_, ?_⟩
-    · simp only [unvisited]; exact Nat.lt_succ_of_le (List.length_filter_le _ _)
-    · rw [h1]; exact h2 List.nodup_nil
-    · have hn : new.Nodup := by simpa using h2 List.nodup_nil
-      exact h3.nodup ((List.reverse_perm new).nodup_iff.mpr hn)
-  · exact ⟨by simp, List.nodup_nil, by simp⟩
+  · exact key _
+  · exact key _
   · exact ⟨by simp, List.nodup_nil, by simp⟩
 
-/-- A two-node cycle with a repeated kid and a self loop: the walk ends, page 3 comes once. -/
+/-- **Completeness and order on graphs.** For a root reference `r`, when the walk ends normally
+(the only exception left is `PDFObjectNotFound` for an integer kid naming nothing):
+everything reachable from `r` along Kids is visited, and the pages yielded (those that are
+indirect objects) are exactly the visited Page nodes, each once, in the order of their first
+visit. Hence every reachable Page is yielded exactly once. -/
+theorem C04_graph (g : Store) (catalog : Dict) (r : Nat)
+    (hroot : dget catalog "Pages" = some (.atom (.ref r)))
+    (herr : (treeWalk g (g.length + 1) catalog).err = none) :
+    let w := treeWalk g (g.length + 1) catalog
+    (∀ n, Reach g r n → n ∈ w.visited) ∧
+    w.pages.filterMap (·.id) = w.visited.reverse.filter (isPageNode g) ∧
+    (∀ n, Reach g r n → isPageNode g n = true →
+      (w.pages.filterMap (·.id)).count n = 1) := by
+  simp only
+  unfold treeWalk at herr ⊢
+  rw [hroot] at herr ⊢
+  simp only at herr ⊢
+  have hreach := reach_visited g (g.length + 1) r catalog herr
+  obtain ⟨⟨new, h1, h2, h3, _⟩, _⟩ := visit_inv g (g.length + 1) (.atom (.ref r)) catalog []
+  have hvis : (visit g (g.length + 1) (.atom (.ref r)) catalog []).visited = new := by simpa using h1
+  have hn : new.Nodup := by simpa using h2 List.nodup_nil
+  refine ⟨hreach, by rw [h3, hvis], ?_⟩
+  intro n hr hp
+  rw [h3]
+  have hmem : n ∈ new.reverse.filter (isPageNode g) := by
+    rw [List.mem_filter]; exact ⟨by simpa [hvis] using hreach n hr, hp⟩
+  have hnd : (new.reverse.filter (isPageNode g)).Nodup :=
+    (List.filter_sublist).nodup ((List.reverse_perm new).nodup_iff.mpr hn)
+  rw [hnd.count, if_pos hmem]
+
+/-- **Inheritance on graphs.** Whatever the graph (shared nodes, cycles), every yielded page that is
+an indirect object was reached along a chain of Kids entries from the root `r`, and each of its
+inheritable attributes is its own or that of the nearest node on that chain defining it (the
+chain on which the page is first reached). -/
+theorem C04_graph_inherit (g : Store) (catalog : Dict) (r fuel : Nat)
+    (hroot : dget catalog "Pages" = some (.atom (.ref r)))
+    (hcat : ∀ k ∈ INHERITABLE_ATTRS, dget catalog k = none) :
+    ∀ rp ∈ (treeWalk g fuel catalog).pages, ∀ p, rp.id = some p →
+      ∃ path, path.head? = some p ∧ path.getLast? = some r ∧ IsChain g path ∧
+        ∀ k ∈ INHERITABLE_ATTRS, dget rp.attrs k = inherited (path.map (nodeDict g)) k := by
+  intro rp hrp p hp
+  unfold treeWalk at hrp
+  rw [hroot] at hrp
+  simp only at hrp
+  have h := visit_attrs g fuel (.atom (.ref r)) catalog [] []
+    (fun k hk => by rw [hcat k hk]; simp [inherited]) (fun id _ => by simp [IsChain]) rp hrp p hp
+  obtain ⟨id, path, hk, h1, h2, h3, h4⟩ := h
+  have : id = r := by simpa [kidId] using hk.symm
+  subst this
+  exact ⟨path, h1, h2, by simpa using h3, by simpa using h4⟩
+
+/-- A Page (6) shared by two Pages nodes with different Rotate: it is yielded once, with the Rotate
+of the node through which it is reached first (3), not of the later one (4). -/
 example :
-    let g : Store := fun n =>
-      if n = 2 then some (.node [("Type", .atom (.name "Pages")), ("Kids", .arr [.ref 3, .ref 2, .ref 3, .ref 4])])
-      else if n = 3 then some (.node [("Type", .atom (.name "Page"))])
-      else if n = 4 then some (.node [("Type", .atom (.name "Pages")), ("Kids", .arr [.ref 2, .ref 5])])
-      else if n = 5 then some (.node [("Type", .atom (.name "Page"))])
-      else none
-    ((treeWalk g 5 [("Pages", .atom (.ref 2))]).pages.map (·.id), (treeWalk g 5 [("Pages", .atom (.ref 2))]).err)
-      = ([3, 5], none) := by
+    let g : Store :=
+      [(2, .node [("Type", .atom (.name "Pages")), ("Kids", .arr [.atom (.ref 3), .atom (.ref 4)])]),
+       (3, .node [("Type", .atom (.name "Pages")), ("Kids", .arr [.atom (.ref 6)]), ("Rotate", .atom (.int 90))]),
+       (4, .node [("Type", .atom (.name "Pages")), ("Kids", .arr [.atom (.ref 6), .atom (.ref 7)]),
+            ("Rotate", .atom (.int 180))]),
+       (6, .node [("Type", .atom (.name "Page"))]),
+       (7, .node [("Type", .atom (.name "Page"))])]
+    (createPages g [2, 3, 4, 6, 7] 6 [("Pages", .atom (.ref 2))]).1.map (fun p => (p.id, p.rotate))
+      = [(some 6, 90), (some 7, 180)] := by
   decide
+
+/-- A two-node cycle with a repeated kid, a self loop, a direct Page dictionary and a direct Pages
+dictionary in Kids: the walk ends, pages 3 and 5 come once, the direct Page is yielded without
+object number, the direct Pages node is ignored. -/
+example :
+    let g : Store :=
+      [(2, .node [("Type", .atom (.name "Pages")),
+            ("Kids", .arr [.atom (.ref 3), .atom (.ref 2), .dict [("Type", .name "Page")], .atom (.ref 3),
+              .dict [("Type", .name "Pages"), ("Kids", .ref 2)], .atom (.ref 4)])]),
+       (3, .node [("Type", .atom (.name "Page"))]),
+       (4, .node [("Type", .atom (.name "Pages")), ("Kids", .arr [.atom (.ref 2), .atom (.ref 5)])]),
+       (5, .node [("Type", .atom (.name "Page"))])]
+    ((treeWalk g 5 [("Pages", .atom (.ref 2))]).pages.map (·.id),
+     (treeWalk g 5 [("Pages", .atom (.ref 2))]).visited,
+     (treeWalk g 5 [("Pages", .atom (.ref 2))]).err)
+      = ([some 3, none, some 5], [5, 4, 3, 2], none) := by
+  decide
+
+/-- `catalog["Pages"]` written as a direct Page dictionary: one page without object number. -/
+example : (createPages [] [] 1 [("Pages", .dict [("Type", .name "Page"), ("Rotate", .int 90)])]).1.map
+    (fun p => (p.id, p.rotate)) = [(none, 90)] := by decide
+
+/-- **`resolve1` terminates.** The loop with the `seen` set never exhausts the budget "number of
+objects + 1", whatever the chains of references (circular ones resolve to null). -/
+theorem C04_resolve_total (g : Store) (v : Val) : resolveAux g (g.length + 1) [] v ≠ none :=
+  resolve_total g v
+
+example : resolve [(6, .val (.atom (.ref 7))), (7, .val (.atom (.ref 6)))] (.atom (.ref 6)) = .val (.atom .null) := by
+  decide
+example : resolve [(6, .val (.atom (.ref 7))), (7, .val (.atom (.ref 8))), (8, .val (.atom (.int 3)))]
+    (.atom (.ref 6)) = .val (.atom (.int 3)) := by decide
 
 /-! ## Rotate -/
 
@@ -155,6 +245,18 @@ theorem C04_rotate (r : Int) :
 
 example : norm_rotate (-90) = 270 ∧ norm_rotate 450 = 90 ∧ norm_rotate (-720) = 0 := by decide
 
+/-- The `rotation` option of `extract_text_to_fp` (regenerated arithmetic): the Rotate used for the
+page is again in 0..359 and congruent to `Rotate + rotation` mod 360, for all integers; so for
+multiples of 90 the page lands as `C04_ctm`/`C04_ctm_bbox` say for that total rotation. -/
+theorem C04_rotation_option (rotate rotation : Int) :
+    0 ≤ add_rotation rotate rotation ∧ add_rotation rotate rotation < 360 ∧
+    (add_rotation rotate rotation - (rotate + rotation)) % 360 = 0 := by
+  simp only [add_rotation, pyMod]
+  rw [Int.fmod_eq_emod_of_nonneg _ (by omega)]
+  omega
+
+example : add_rotation 270 180 = 90 ∧ add_rotation 0 (-90) = 270 := by decide
+
 /-! ## Page selection -/
 
 /-- `get_pages(pagenos, maxpages)` yields exactly the pages whose zero-based index is selected
@@ -162,6 +264,18 @@ example : norm_rotate (-90) = 270 ∧ norm_rotate 450 = 90 ∧ norm_rotate (-720
 theorem C04_select {α : Type} (sel : List Nat) (maxpages : Nat) (pages : List α) :
     getPages sel maxpages 0 pages = specSelect sel maxpages 0 pages :=
   select_from sel maxpages pages 0 (by omega)
+
+/-- **Selection with a pending exception.** When `create_pages` would raise after its last page,
+`get_pages` yields the same pages and raises exactly when the loop asks for a page beyond the
+last one, i.e. when the index of the failing page is below the limit (or there is no limit). -/
+theorem C04_select_pending {α : Type} (sel : List Nat) (maxpages : Nat) (pages : List α) (e : Option Err) :
+    getPagesS sel maxpages 0 pages e =
+      (specSelect sel maxpages 0 pages, if maxpages = 0 ∨ pages.length < maxpages then e else none) := by
+  have := select_stream sel maxpages pages e 0 (by omega)
+  simpa [pastEnd] using this
+
+example : getPagesS [] 2 0 [10, 11] (some Err.objectNotFound) = ([10, 11], none) := by decide
+example : getPagesS [0] 3 0 [10, 11] (some Err.objectNotFound) = ([10], some Err.objectNotFound) := by decide
 
 example : getPages [5, 1] 2 0 [10, 11, 12, 13, 14, 15] = [11] := by decide
 example : getPages [] 0 0 [10, 11, 12] = [10, 11, 12] := by decide
@@ -258,7 +372,7 @@ theorem C04_box_normalised (r : Rect) :
 
 /-- Every `PDFPage` that is constructed has Rotate in 0..359 and normalised MediaBox and CropBox
 (whatever the attribute values: defaults, wrong-length arrays, swapped corners). -/
-theorem C04_page_values (g : Store) (id : Nat) (res mb cb rot : Option Val) :
+theorem C04_page_values (g : Store) (id : Option Nat) (res mb cb rot : Option Val) :
     0 ≤ (mkPage g id res mb cb rot).rotate ∧ (mkPage g id res mb cb rot).rotate < 360 ∧
     Normalised (mkPage g id res mb cb rot).mediabox ∧ Normalised (mkPage g id res mb cb rot).cropbox := by
   have hr : ∀ r : Int, 0 ≤ norm_rotate r ∧ norm_rotate r < 360 := by
